@@ -46,7 +46,10 @@ def meta(d, with_range=True):
     """All metadata of an FCSData through the public accessors."""
     out = []
     for k in META:
-        out.append((k, fbits(getattr(d, k))))
+        try:
+            out.append((k, fbits(getattr(d, k))))
+        except Exception as e:           # an accessor that no longer works on this object
+            out.append((k, ('EXC', type(e).__name__)))
     for k in PERCH:
         if k == 'range' and not with_range:
             continue
@@ -55,6 +58,13 @@ def meta(d, with_range=True):
         except Exception as e:           # metadata not aligned with the shape
             out.append((k, ('EXC', type(e).__name__)))
     return tuple(out)
+
+
+def broken(f):
+    """names of the metadata accessors that raised when fingerprint f (of an FCSData) was taken"""
+    if not (isinstance(f, tuple) and f and f[0] == 'FCSData'):
+        return []
+    return ['%s (%s)' % (k, v[1]) for k, v in f[2] if isinstance(v, tuple) and len(v) == 2 and v[0] == 'EXC']
 
 
 def fp(x, with_range=True):
